@@ -135,8 +135,8 @@ fn stub_rebuild(
 
 fn no_callback(_s: &mut RepairSession) {}
 
-// @harness props=C01,C12 tier=quick timeout=2400 mem=20 stubbing=1 flavor=nodebug replay=scenario:crash
-// @desc Database::do_repair for every recovered header state and every answer of the tree-verification oracle: it ends on a slot that verifies; it falls back to the secondary exactly when the primary does not verify and the 2PC flag is clear; a primary that does not verify under the 2PC flag, or two slots that do not verify, yield an error WITHOUT any header write (so the recovery flag stays set); the allocator state is rebuilt from the slot that verified; recovery_required is cleared only after that, by exactly one header write followed by one flush
+// @harness props=C01,C12 tier=thorough timeout=7200 mem=40 stubbing=1 flavor=nodebug replay=scenario:crash
+// @desc (attempted: did not close in 1800 s in the quick tier) Database::do_repair for every recovered header state and every answer of the tree-verification oracle: it ends on a slot that verifies; it falls back to the secondary exactly when the primary does not verify and the 2PC flag is clear; a primary that does not verify under the 2PC flag, or two slots that do not verify, yield an error WITHOUT any header write (so the recovery flag stays set); the allocator state is rebuilt from the slot that verified; recovery_required is cleared only after that, by exactly one header write followed by one flush
 // @functions Database::{do_repair,primary_verifies}, TransactionalMemory::{repair_primary_corrupted,used_two_phase_commit,clear_recovery_required,clear_read_cache}, DatabaseHeader::swap_primary_slot
 // @bound header with two arbitrary valid slots, primary index, 2PC flag and the oracle's answer per slot arbitrary
 // @stubs Database::verify_primary_checksums -> oracle V; Database::rebuild_allocator_state -> records the primary index; TransactionalMemory::write_header, PagedCachedFile::flush -> event log; xxh3_checksum -> uninterpreted; alloc::fmt::format -> empty
